@@ -53,24 +53,53 @@ func vcTempDir(prefix string) string {
 	return d
 }
 
-// vcFreeTCPPort asks the kernel for a free loopback TCP port.
-func vcFreeTCPPort() int {
-	ln, err := net.Listen("tcp", "127.0.0.1:0")
-	if err != nil {
-		panic(err)
-	}
-	defer ln.Close()
-	return ln.Addr().(*net.TCPAddr).Port
+// Ports are taken from 10240-32000, below the kernel's ephemeral range, walking from a per-process start:
+// a port handed out by the kernel (":0") can be given to another process in the instant between the probe
+// and the Core binding it, which happened regularly with 16 parallel shards on a loaded machine.
+var vcPortCursor atomic.Int64
+
+func vcNextPortCandidate() int {
+	const lo, span = 10240, 32000 - 10240
+	n := vcPortCursor.Add(1)
+	return lo + int((int64(os.Getpid())*7919+n*13)%span)
 }
 
-// vcFreeUDPPort asks the kernel for a free loopback UDP port.
-func vcFreeUDPPort() int {
-	c, err := net.ListenUDP("udp", &net.UDPAddr{IP: net.IPv4(127, 0, 0, 1)})
-	if err != nil {
-		panic(err)
+// vcFreeTCPPort returns a loopback TCP port that was free when probed.
+func vcFreeTCPPort() int {
+	for i := 0; i < 2000; i++ {
+		p := vcNextPortCandidate()
+		ln, err := net.Listen("tcp", fmt.Sprintf("127.0.0.1:%d", p))
+		if err != nil {
+			continue
+		}
+		ln.Close()
+		ln2, err := net.Listen("tcp", fmt.Sprintf(":%d", p))
+		if err != nil {
+			continue
+		}
+		ln2.Close()
+		return p
 	}
-	defer c.Close()
-	return c.LocalAddr().(*net.UDPAddr).Port
+	panic("no free tcp port")
+}
+
+// vcFreeUDPPort returns a loopback UDP port that was free when probed.
+func vcFreeUDPPort() int {
+	for i := 0; i < 2000; i++ {
+		p := vcNextPortCandidate()
+		c, err := net.ListenUDP("udp", &net.UDPAddr{IP: net.IPv4(127, 0, 0, 1), Port: p})
+		if err != nil {
+			continue
+		}
+		c.Close()
+		c2, err := net.ListenUDP("udp", &net.UDPAddr{Port: p})
+		if err != nil {
+			continue
+		}
+		c2.Close()
+		return p
+	}
+	panic("no free udp port")
 }
 
 // vcFreeEvenUDPPair returns an even port p such that p and p+1 were both free (RTP/RTCP).
@@ -371,9 +400,9 @@ type vcCore struct {
 // vcCoreOpts selects which listeners are enabled; everything else is off.
 type vcCoreOpts struct {
 	API, Metrics, PPROF, Playback, RTSP, RTMP, HLS, WebRTC, SRT bool
-	Extra                                                          string // extra global YAML (top-level keys)
-	Paths                                                          string // YAML body of "paths:" (two-space indented); default "  all_others:\n"
-	LogLevel                                                       string // default "error"
+	Extra                                                       string // extra global YAML (top-level keys)
+	Paths                                                       string // YAML body of "paths:" (two-space indented); default "  all_others:\n"
+	LogLevel                                                    string // default "error"
 }
 
 var vcCoreMu sync.Mutex // core.New uses a package-level CLI struct: serialize construction
@@ -479,7 +508,7 @@ func vcStartCoreYAML(yaml string, ports map[string]int) (*vcCore, error) {
 // vcStartCore = vcCoreYAML + vcStartCoreYAML (retries a few times if a port was stolen meanwhile).
 func vcStartCore(o vcCoreOpts) (*vcCore, error) {
 	var lastErr error
-	for i := 0; i < 4; i++ {
+	for i := 0; i < 8; i++ {
 		y, ports := vcCoreYAML(o)
 		c, err := vcStartCoreYAML(y, ports)
 		if err == nil {
